@@ -383,12 +383,272 @@ def s4_constructors(ctx):
                 ctx.judge(r, "ctor", "coerce", src)
 
 
+# ==========================================================================================
+# S5 — accessors: view or copy
+
+MUST_VIEW = {"d", "ndview", "ndarray_view()", "x[1:]", "x[::2]", "x[...]", "x[None]", "x[...,0:1]", "reshape(-1)",
+             "reshape(shape+(1,))", "np.reshape(x,-1)", "T", "transpose()", "np.transpose(x)", "swapaxes(0,-1)",
+             "unyt_array(ndarray,unit)", "unyt_array(ndarray)", "unyt_array(ndarray,unit,name)"}
+MUST_COPY = {"v", "value", "to_ndarray()", "to_value()", "to_value(same)", "to_value(other)", "copy()", "to(same)", "to(other)",
+             "in_units(same)", "in_units(other)", "in_base()", "in_cgs()", "in_mks()", "to_equivalent(spectral)",
+             "x*unit", "unit*x", "ndarray*unit", "unit*ndarray"}
+
+
+def load_plugin():
+    import importlib.util
+    import os
+
+    path = os.path.join(core.VERIF, "tools", "extract.d", "c16_tables.py")
+    spec = importlib.util.spec_from_file_location("c16_tables_plugin", path)
+    mod = importlib.util.module_from_spec(spec)
+    spec.loader.exec_module(mod)
+    return mod
+
+
 def s5_accessors(ctx):
-    pass
+    import unyt
+
+    chk = ctx.chk
+    plug = load_plugin()
+    cat = plug.accessor_catalogue(np, unyt)
+    table = {n: (rel, kind) for n, rel, kind in ctx.tables()["accessors"]}
+    # the regenerated Lean table says what the translator saw (dump cross-check)
+    for name, _k, _f in cat:
+        rel, kind = table.get(name, ("missing", "missing"))
+        ctx.ask(f"c16.accessor\t{name}", ["ok", rel, kind], f"generated accessor row {name}")
+    for name in sorted(set(table) - {n for n, _k, _f in cat}):
+        chk.disagree("c16.accessor", f"generated row {name} is not in the catalogue")
+    for name, pk, fn in cat:
+        for shp in ctx.shapes:
+            a = L.base_array(shp)
+            if a.size == 0:
+                continue
+            parents_ = []
+            if pk == "a":
+                parents_.append(("ndarray", a, f"a"))
+            else:
+                parents_.append(("A", unyt.unyt_array(a.copy(), "m", name="p"), "x"))
+                if shp == ():
+                    parents_ = [("Q", unyt.unyt_quantity(float(a), "m", name="p"), "x")]
+            for pkind, parent, var in parents_:
+                st, r = outcome(lambda: fn(parent))
+                chk.case(("accessor", name, pkind, shp))
+                chk.count("S5:accessor")
+                if st == "err":
+                    chk.count("S5:raised:" + core.exc_name(r))
+                    continue
+                if isinstance(r, np.ndarray) and r.size == 0:
+                    continue
+                shares = bool(isinstance(r, np.ndarray) and np.shares_memory(r, parent))
+                rel = table.get(name, ("missing",))[0]
+                if rel in ("view", "copy") and shares != (rel == "view"):
+                    chk.disagree("accessor-table", f"{name} on {pkind}{shp}: shares={shares}, regenerated table says {rel}")
+                src = (L.setup_src(shp, "Q" if pkind == "Q" else "A")
+                       + "import importlib.util, os\n"
+                       + f"spec = importlib.util.spec_from_file_location('p', {plug.__file__!r}); P = importlib.util.module_from_spec(spec); spec.loader.exec_module(P)\n"
+                       + f"fn = dict((n, f) for n, k, f in P.accessor_catalogue(np, unyt))[{name!r}]\n"
+                       + f"parent = {var}\nr = fn(parent)\nshares = isinstance(r, np.ndarray) and np.shares_memory(r, parent)\n")
+                if name in MUST_VIEW and not shares:
+                    chk.fail(f"not-view|accessor|{name}", f"{name} returned data detached from its parent ({pkind}{shp})",
+                             {"python": src + "assert shares, 'must share memory with the parent'\n", "accessor": name})
+                if name in MUST_COPY and shares:
+                    chk.fail(f"not-copy|accessor|{name}", f"{name} returned a view of its parent ({pkind}{shp})",
+                             {"python": src + "assert not shares, 'must be independent data'\n", "accessor": name})
+                # unit-keeping accessors keep the units (and conversions carry the requested unit)
+                if isinstance(r, unyt.unyt_array) and pk == "x" and name not in ("to(other)", "in_units(other)", "in_base()", "in_cgs()", "in_mks()", "to_equivalent(spectral)", "x*unit", "unit*x"):
+                    if r.units != parent.units:
+                        chk.fail(f"units-lost|accessor|{name}", f"{name} changed the units", {"python": src + "assert r.units == parent.units\n"})
+
+
+# ==========================================================================================
+# S6 — ufuncs
+
+def operand(kind, shape, unit):
+    """(class name on the wire, python source, in the oracle's input domain?)"""
+    n = int(np.prod(shape)) if shape else 1
+    arr = f"(np.arange({n}, dtype=float) + 1.0).reshape({tuple(shape)!r})"
+    u = repr(unit)
+    if kind == "A":
+        return "unyt_array", f"unyt_array({arr}, {u})", shape != ()
+    if kind == "S":
+        return "subA", f"subA({arr}, {u})", shape != ()
+    if kind == "Q":
+        return "unyt_quantity", f"unyt_quantity(3.0, {u})", True
+    if kind == "Q1":
+        return "unyt_quantity", f"unyt_quantity(3.0, {u})[None]", True
+    if kind == "SQ":
+        return "subQ", f"subQ(3.0, {u})", True
+    if kind == "N":
+        return "ndarray", arr, True
+    if kind == "L":
+        return "list", f"{arr}.tolist()", True
+    if kind == "F":
+        return "float", "2.0", True
+    if kind == "I":
+        return "int", "2", True
+    if kind == "NP":
+        return "npnumber", "np.float64(2.0)", True
+    raise ValueError(kind)
+
+
+def kind_shape(kind, shape):
+    if kind in ("Q", "SQ", "F", "I", "NP"):
+        return ()
+    if kind == "Q1":
+        return (1,)
+    return shape
+
+
+UNARY_OPERANDS = [("Q", ()), ("Q1", (1,)), ("SQ", ()), ("S", (3,)), ("S", (1,)), ("S", (2, 3))]
+BIN_KINDS = [("A", "A"), ("A", "Q"), ("Q", "A"), ("Q", "Q"), ("A", "N"), ("N", "A"), ("Q", "N"), ("N", "Q"), ("Q", "L"), ("L", "Q"),
+             ("A", "L"), ("Q", "F"), ("F", "Q"), ("A", "F"), ("I", "A"), ("Q", "NP"), ("NP", "A"), ("S", "A"), ("A", "S"), ("S", "Q"),
+             ("Q", "S"), ("S", "N"), ("N", "S"), ("SQ", "A"), ("A", "SQ"), ("SQ", "Q"), ("Q", "SQ"), ("SQ", "N"), ("Q1", "A"), ("Q1", "Q"),
+             ("Q1", "N"), ("N", "Q1"), ("S", "S"), ("SQ", "SQ"), ("Q1", "Q1")]
+BIN_SHAPES = [((), ()), ((3,), (3,)), ((1,), (3,)), ((3,), ()), ((), (2, 3)), ((1,), (1,)), ((1, 1), (1,)), ((2, 3), (3,)), ((3, 1), (1, 3)),
+              ((0,), (1,)), ((2, 3), (2,)), ((1, 1), ()), ((2, 1, 3), (3, 1)), ((1,), ())]
 
 
 def s6_ufuncs(ctx):
-    pass
+    import unyt
+    from unyt import unyt_array
+
+    chk = ctx.chk
+    reg = unyt_array._ufunc_registry
+    none_rules = {"_return_without_unit", "_comparison_unit"}
+    quick = ctx.tier == "quick"
+    ufuncs = sorted((f for f in reg if isinstance(f, np.ufunc)), key=lambda f: f.__name__)
+
+    def run_case(uf, method, margs, ops, units):
+        """ops: [(kind, shape)]; evaluates on the real library, queues the model query, judges"""
+        names, srcs, dom = [], [], True
+        for (k, shp), u in zip(ops, units):
+            cn, src, ok = operand(k, shp, u)
+            names.append(cn)
+            srcs.append(src)
+            dom = dom and ok
+        call = f"np.{uf.__name__}" + ("" if method == "call" else "." + method)
+        kw = ""
+        axes_w, keep_w = "none", 0
+        if method == "reduce":
+            ax, keep = margs
+            kw = f", axis={ax!r}, keepdims={keep!r}"
+            axes_w = "none" if ax is None else L.ints_w(ax if isinstance(ax, tuple) else (ax,))
+            keep_w = 1 if keep else 0
+        src = L.SETUP + "".join(f"o{i} = {sr}\n" for i, sr in enumerate(srcs)) + f"r = {call}({', '.join('o%d' % i for i in range(len(srcs)))}{kw})\n"
+        env = {}
+        st, r = outcome(lambda: exec(src, env))
+        key = (uf.__name__, method, margs, tuple(ops), units)
+        chk.case(("ufunc",) + key, {"op": call, "operands": [f"{k}{s}" for k, s in ops], "units": list(units)} if len(chk.samples) < 9 else None)
+        chk.count(f"S6:{method}:{len(ops)}")
+        opname = uf.__name__ + ("" if method == "call" else "." + method)
+        if st == "err":
+            try:
+                msg = str(r)
+            except Exception:
+                msg = ""
+            if isinstance(r, RuntimeError) and "must be scalars" in msg:
+                if dom:
+                    chk.fail(f"quantity-size-refusal|ufunc|{opname}", f"{call} on {names} raised 'unyt_quantity instances must be scalars'",
+                             {"python": src.replace(f"r = {call}", f"r = {call}") + "", "operation": call})
+            elif isinstance(r, (unyt.exceptions.UnitOperationError, unyt.exceptions.InvalidUnitOperation, TypeError, unyt.exceptions.UnitConversionError)):
+                chk.count("S6:unit-refusal")
+                return
+            elif isinstance(r, ValueError) and "broadcast" in msg:
+                pass
+            else:
+                chk.count("S6:other-raise:" + core.exc_name(r))
+                return
+        # flags of the call as the registry sees them
+        rule = reg[uf]
+        unit_none = rule.__name__ in none_rules
+        multi = uf.__name__ in ("modf", "divmod")
+        mul_one = True
+        try:
+            objs = [env.get(f"o{i}") for i in range(len(srcs))]
+            us = [getattr(o, "units", None) for o in objs]
+            if uf.__name__ in ("multiply", "divide", "true_divide", "floor_divide", "matmul", "vecdot") and method in ("call", "outer") and len(us) == 2:
+                us = [u if u is not None else unyt.Unit() for u in us]
+                mul_one = rule(us[0], us[1])[0] == 1
+        except Exception:
+            return
+        if uf.__name__ == "frexp":
+            ctx.judge(r, "ufunc", opname, src) if st == "ok" else None
+            return
+        opsw = "|".join(f"{cn}@{L.shape_w(kind_shape(k, shp))}" for cn, (k, shp) in zip(names, ops))
+        wmethod = uf.__name__ if uf.__name__ in ("matmul", "vecdot") and method == "call" else method
+        line = f"c16.ufunc\t{wmethod}\t{axes_w}\t{keep_w}\t{1 if unit_none else 0}\t{1 if multi else 0}\t{1 if mul_one else 0}\t{opsw}"
+        if st == "err":
+            ctx.ask(line, ["err", core.exc_name(r)], src.splitlines()[-1])
+            return
+        r = env["r"]
+        first = r[0] if isinstance(r, tuple) else r
+        if isinstance(first, np.ndarray) or isinstance(first, np.generic):
+            ctx.ask(line, ["ok", "ndarray" if not isinstance(first, unyt.unyt_array) else L.cls_name(first), L.shape_w(np.shape(first))], src.splitlines()[-1])
+        else:
+            ctx.ask(line, ["ok", type(first).__name__, "()"], src.splitlines()[-1])
+        if dom:
+            ctx.judge(r, "ufunc", opname, src)
+
+    shapes1 = ctx.shapes
+    for uf in ufuncs:
+        if uf.nin == 1:
+            for shp in shapes1:
+                run_case(uf, "call", None, [("A", shp)], ("rad" if uf.__name__ in ("sin", "cos", "tan") and len(shp) == 1 else "m",))
+            for k, shp in UNARY_OPERANDS:
+                run_case(uf, "call", None, [(k, shp)], ("m",))
+            run_case(uf, "call", None, [("A", (3,))], ("",))
+        elif uf.nin == 2:
+            kinds = BIN_KINDS if (not quick or uf.__name__ in ("add", "multiply", "divide", "divmod", "power", "greater", "maximum", "arctan2", "matmul")) else BIN_KINDS[:14]
+            shapes2 = BIN_SHAPES if (not quick or uf.__name__ in ("add", "multiply", "divide", "divmod")) else BIN_SHAPES[:7]
+            for (k0, k1) in kinds:
+                both = k0 in "ASQ1SQ" and k1 in ("A", "S", "Q", "Q1", "SQ") and k0 in ("A", "S", "Q", "Q1", "SQ")
+                for (s0, s1) in shapes2:
+                    if (k0 == "L" and (len(s0) == 0 or 0 in s0)) or (k1 == "L" and (len(s1) == 0 or 0 in s1)):
+                        continue
+                    if k0 in ("Q", "SQ", "F", "I", "NP", "Q1") and s0 != BIN_SHAPES[0][0] and (s0, s1) != ((), (2, 3)) and s0 != ():
+                        # the first operand's shape is fixed by its kind: visit each second shape once
+                        if (s0, s1) not in (((3,), (3,)), ((1,), (3,)), ((1, 1), (1,)), ((2, 3), (3,)), ((0,), (1,)), ((1,), (1,))):
+                            continue
+                    if uf.__name__ in ("matmul", "vecdot") and (len(kind_shape(k0, s0)) == 0 or len(kind_shape(k1, s1)) == 0):
+                        continue
+                    unit_sets = [("m", "m")] if both else [("", "")]
+                    if both and uf.__name__ in ("divide", "multiply", "true_divide", "floor_divide"):
+                        unit_sets.append(("cm", "m"))
+                    if uf.__name__ in ("power", "ldexp") or (uf.__name__ == "heaviside"):
+                        unit_sets = [("m", "")] if k0 in ("A", "S", "Q", "Q1", "SQ") else [("", "")]
+                    for units in unit_sets:
+                        if uf.__name__ in ("matmul", "vecdot"):
+                            run_case(uf, "call", None, [(k0, (3,)), (k1, (3,))], units)
+                            run_case(uf, "call", None, [(k0, (2, 3)), (k1, (3,))], units)
+                            break
+                        run_case(uf, "call", None, [(k0, s0), (k1, s1)], units)
+                if uf.__name__ in ("matmul", "vecdot"):
+                    continue
+            # methods of binary ufuncs
+            if uf.nout == 1 and uf.__name__ not in ("matmul", "vecdot"):
+                for shp in shapes1:
+                    r_ = len(shp)
+                    axes = [None, 0, -1] + ([(0, 1)] if r_ >= 2 else []) + ([1] if r_ >= 2 else []) + ([()] if not quick else [])
+                    for ax in axes:
+                        if r_ == 0 and ax not in (None, 0):
+                            continue
+                        for keep in (False, True):
+                            run_case(uf, "reduce", (ax, keep), [("A", shp)], ("m",))
+                    run_case(uf, "accumulate", None, [("A", shp)], ("m",))
+                for k, shp in UNARY_OPERANDS:
+                    run_case(uf, "reduce", (None, False), [(k, shp)], ("m",))
+                    run_case(uf, "reduce", (0, True), [(k, shp)], ("m",))
+                for (s0, s1) in BIN_SHAPES[:8]:
+                    run_case(uf, "outer", None, [("A", s0), ("A", s1)], ("m", "m"))
+                run_case(uf, "outer", None, [("Q", ()), ("Q", ())], ("m", "m"))
+                run_case(uf, "outer", None, [("Q", ()), ("A", (3,))], ("m", "m"))
+                run_case(uf, "outer", None, [("Q", ()), ("N", (3,))], ("", ""))
+        elif uf.__name__ == "clip":
+            for shp in shapes1:
+                run_case(uf, "call", None, [("A", shp), ("Q", ()), ("Q", ())], ("m", "m", "m"))
+            run_case(uf, "call", None, [("Q", ()), ("Q", ()), ("Q", ())], ("m", "m", "m"))
+            run_case(uf, "call", None, [("S", (3,)), ("Q", ()), ("A", (3,))], ("m", "m", "m"))
+            run_case(uf, "call", None, [("Q", ()), ("A", (3,)), ("Q", ())], ("m", "m", "m"))
 
 
 def s7_functions(ctx):
